@@ -338,7 +338,8 @@ ASSUME = ['each migration body is atomic and its down inverts its up (bodies of 
 
 
 def main(argv):
-    return run_check('C18', [RecordingStream(), SqlSetStream(), MongoSetStream()], argv, trusted_base=TRUSTED, assumptions=ASSUME)
+    return run_check('C18', [RecordingStream(), SqlSetStream(), MongoSetStream()], argv, trusted_base=TRUSTED, assumptions=ASSUME,
+                     translated=('migration',))
 
 
 if __name__ == '__main__':
